@@ -456,3 +456,21 @@ Definition o_sparse (st : fstate) (l : N) (b : N) (i : nat) : bool :=
                 end
   | None => false
   end.
+
+(* ================= the contract of a body split, as a boolean =======================
+   (Proofs.LabelMapSplit.split_guard_b_sound: it implies split_guard, the hypothesis under which the
+   split step is proved to keep the state consistent; Model.LabelMapRun evaluates it on every body
+   split the server accepted) *)
+Definition fresh_b (st : fstate) (x : N) : bool :=
+  negb (x =? 0) && forallb (fun ba => countN (snd ba) x =? 0) (f_vox st).
+Definition split_guard_b (st : fstate) (body newl : N) (masks : list (N * list bool)) (sm : list (N * (N * N)))
+  : bool :=
+  negb (newl =? 0) && match get_idx st newl with None => true | Some _ => false end &&
+  nodupb (map fst masks) &&
+  nodupb (flat_map (fun e => [fst e; fst (snd e); snd (snd e)]) sm) &&
+  forallb (fun e => negb (fst e =? 0) && (mapped (f_map st) (fst e) =? body) &&
+                    fresh_b st (fst (snd e)) && fresh_b st (snd (snd e))) sm &&
+  existsb (fun e => existsb (fun b => 0 <? match aget N.eqb b (f_vox st) with
+                                           | Some arr => count_masked arr (match aget N.eqb b masks with Some m => m | None => [] end) (fst e)
+                                           | None => 0
+                                           end) (map fst (f_vox st))) sm.
